@@ -12,7 +12,7 @@ SPEC = {
     "drivers": [{"pkg": "internal/config", "test": "TestVerifC02", "timeout": 1500}],
     "rule": "TOML documents generated from the key grammar. stream key: every key x every value of its vocabulary (limit-1s/-1ns/0/+1ns/+1s "
             "around each limit, far out, negative, fractional, int64 overflow, junk, \"\", auto, infinite, absent; CIDR / server / name / "
-            "debug-address vocabularies; overlap pairs; name/names/mode combinations) on a random valid base document; stream interval: all "
+            "debug-address vocabularies (pref64.prefix: every prefix length 0..128); overlap pairs; name/names/mode combinations) on a random valid base document; stream interval: all "
             "1797 whole-second max_interval values and random ns values with the computed min, the largest accepted min, default_lifetime = max, "
             "and the first rejected value on each side; stream random: valid multi-stanza documents with 0-3 mutations; stream decode: unknown "
             "keys / wrong types / bad syntax (expected reject supplied by the generator); stream bytes: byte-mutated documents and noise "
